@@ -315,6 +315,20 @@ Fixpoint odf_text (pint : int_oracle) (skip : list str) (x : xml) : str :=
                end) cs
   end.
 
+(* descendants of x in document order, not entering children whose tag is `skip`
+   (ods _iter_cell_paragraphs / odp _iter_paragraphs: the paragraphs of cell comments are left out) *)
+Fixpoint iter_skip (skip : str) (x : xml) : list xml :=
+  match x with
+  | Elem _ _ _ cs _ =>
+      (fix go (l : list xml) : list xml :=
+         match l with
+         | [] => []
+         | c :: r => (if tag_is skip c then [] else c :: iter_skip skip c) ++ go r
+         end) cs
+  end.
+Definition ods_cell_paras (cell : xml) : list xml := filter (tag_is TEXT_P) (iter_skip OFFICE_ANNOTATION cell).
+
+
 (* ------------------------------------------------------------------ ODT / ODP *)
 Definition odf_cell (pint : int_oracle) (skip : list str) (c : xml) : str :=
   join NL (map (odf_text pint skip) (iter_tag TEXT_P c)).
@@ -326,10 +340,13 @@ Definition odt_table (pint : int_oracle) (skip : list str) (t : xml) : list (lis
 Definition odt_tables (pint : int_oracle) (skip : list str) (body : xml) : list (list (list str)) :=
   filter (fun t => negb (is_nil t)) (map (odt_table pint skip) (iter_tag TABLE_TABLE body)).
 
+(* odp: cell text from _iter_paragraphs(cell) (annotations skipped), odt still uses cell.iter(text:p) *)
+Definition odp_cell (pint : int_oracle) (skip : list str) (c : xml) : str :=
+  join NL (map (odf_text pint skip) (ods_cell_paras c)).
 (* odp _extract_table(table_elem): header rows first, then direct rows *)
 Definition odp_table (pint : int_oracle) (skip : list str) (t : xml) : list (list str) :=
   let rows := flat_map (findall TABLE_ROW) (findall TABLE_HEADER_ROWS t) ++ findall TABLE_ROW t in
-  filter (fun r => negb (is_nil r)) (map (fun row => map (odf_cell pint skip) (findall TABLE_CELL row)) rows).
+  filter (fun r => negb (is_nil r)) (map (fun row => map (odp_cell pint skip) (findall TABLE_CELL row)) rows).
 
 Definition odf_r_para (p : para) : xml :=
   match p with
@@ -357,19 +374,6 @@ Fixpoint ascii_lower (x : str) : str :=
   match x with [] => [] | c :: r => (if (65 <=? c) && (c <=? 90) then c + 32 else c) :: ascii_lower r end.
 
 Definition mem3 (x a b c : str) : bool := str_eqb x a || str_eqb x b || str_eqb x c.
-
-(* descendants of x in document order, not entering children whose tag is `skip`
-   (_iter_cell_paragraphs: cell comments are left out, fix C13-ods-cell-comment-text) *)
-Fixpoint iter_skip (skip : str) (x : xml) : list xml :=
-  match x with
-  | Elem _ _ _ cs _ =>
-      (fix go (l : list xml) : list xml :=
-         match l with
-         | [] => []
-         | c :: r => (if tag_is skip c then [] else c :: iter_skip skip c) ++ go r
-         end) cs
-  end.
-Definition ods_cell_paras (cell : xml) : list xml := filter (tag_is TEXT_P) (iter_skip OFFICE_ANNOTATION cell).
 
 (* _extract_cell_value (repaired code); the option is kept for uniformity: it is always Some *)
 Definition ods_cell_value (pint : int_oracle) (pflt : float_oracle) (cell : xml) : option val :=
@@ -1066,3 +1070,13 @@ Definition rtf_r_block (b : rblock) : str :=
   end.
 Definition rtf_r_doc (d : list rblock) : str :=
   s "{\rtf1\ansi " ++ concat (map rtf_r_block d) ++ s "}".
+
+(* render variants: what may follow \row (nothing, a space, a newline, a group boundary, \pard) and
+   empty cells written as \cell directly after the previous \cell / \trowd *)
+Definition rtf_row_sep_ok (sep : str) : bool := mem_str sep [[]; [32]; [10]; s "}{"; s "\pard"].
+Definition rtf_r_cell_gen (tight : bool) (t : str) : str :=
+  (if tight && is_nil t then [] else SP :: t) ++ s "\cell".
+Definition rtf_r_row_gen (tight : bool) (sep : str) (cells : list str) : str :=
+  s "\trowd" ++ concat (map (rtf_r_cell_gen tight) cells) ++ s "\row" ++ sep.
+Definition rtf_r_doc_gen (tight : bool) (sep : str) (g : list (list str)) : str :=
+  s "{\rtf1\ansi " ++ concat (map (rtf_r_row_gen tight sep) g) ++ s "}".
